@@ -143,10 +143,11 @@ class WeightedProbabilityBasedSquaredError(ProbabilityBasedLossFunction):
             self.set_weight_matrices(None)
         elif mode_weight == "custom":
             self.set_weight_matrices(self.option.weights)
-        elif (
-            mode_weight == "inverse_sample_covariance"
-            or mode_weight == "inverse_unbiased_covariance"
-        ):
+        elif mode_weight in [
+            "inverse_sample_covariance",
+            "inverse_unbiased_covariance",
+            "unbiased_inverse_covariance",  # the spelling the option class also accepts
+        ]:
             weight_matrices = []
             for (num_data, empi_dist_original) in data:
                 empi_dist = matrix_util.replace_prob_dist(empi_dist_original)
